@@ -20,6 +20,7 @@ import EPV.Lemmas.CalendarOps
 import EPV.Lemmas.CalendarMk
 import EPV.Lemmas.CalendarDuration
 import EPV.Lemmas.CalendarTime
+import EPV.Lemmas.CalendarLex
 namespace EPV.C11
 open EPV.Cal EPV.Timeline
 
@@ -370,6 +371,47 @@ theorem ctor_rejects_invalid_date (year m d h mi s us : Int) (tz : Option Int) (
 /-- test (literals): -0001-12-31T24:00:00 (XSD 1.0: 1 BCE) is 0001-01-01T00:00:00 -/
 example : mk (-1) 12 31 24 0 0 0 none = .ok ⟨1, 1, 1, 0, none⟩ ∧ mk 10000 2 29 0 0 0 0 none = .ok ⟨10000, 2, 29, 0, none⟩ ∧
     mk 10003 2 29 0 0 0 0 none = .error .value ∧ mk (-1) 2 29 0 0 0 0 none = .ok ⟨-1, 2, 29, 0, none⟩ := by decide
+
+/-! ### lexical forms (`fromstring`, `__str__`) -/
+
+/-- **the canonical string of an `xs:dateTime` value re-parses to the value** (`fromstring(str(v)) = v`, hence
+`str` of the result is the same string: a fixed point), in both XSD versions, for every valid value with
+|year| ≤ 2^31: BCE years in either numbering, years of more than four digits (no leading zero), seconds
+fractions (trailing zeros stripped, re-padded), all timezones (C10's timezone round trip), surrounding
+white-space stripping. -/
+theorem dateTime_string_roundtrip (v11 : Bool) (v : DT) (hv : v.Valid) (hyb : v.year.natAbs ≤ 2 ^ 31) :
+    dateTimeOfLex v11 (fmtDateTime v11 v) = .ok v ∧
+    (dateTimeOfLex v11 (fmtDateTime v11 v)).map (fmtDateTime v11) = .ok (fmtDateTime v11 v) := by
+  rw [dateTime_lex_roundtrip v11 v hv hyb]; exact ⟨rfl, rfl⟩
+
+/-- the same for `xs:date` -/
+theorem date_string_roundtrip (v11 : Bool) (v : DT) (hv : v.Valid) (hus : v.us = 0) (hyb : v.year.natAbs ≤ 2 ^ 31) :
+    dateOfLex v11 (fmtDate v11 v) = .ok v :=
+  date_lex_roundtrip v11 v hv hus hyb
+
+/-- the same for `xs:time` -/
+theorem time_string_roundtrip (t : DT) (ht : IsTime t) : timeOfLex (fmtTime t) = .ok t :=
+  time_lex_roundtrip t ht
+
+/-- **lexical → components → canonical string**: a literal whose fields are a real calendar date and a time of day
+is read by `fromstring` into exactly the value `components_roundtrip` describes — here for the canonical
+literal of a value: reading it and building the value from its own fields is the same thing. -/
+theorem lexical_agrees_with_components (v11 : Bool) (v : DT) (hv : v.Valid) (hyb : v.year.natAbs ≤ 2 ^ 31) :
+    dateTimeOfLex v11 (fmtDateTime v11 v) =
+      mkUs v.year v.month v.day v.us v.tz := by
+  rw [dateTime_lex_roundtrip v11 v hv hyb]
+  obtain ⟨hy, ⟨hm1, hm12, hd1, hd2, hu0, hu1⟩, htz⟩ := hv
+  simp only [absV] at hm1 hm12 hd1 hd2 hu0 hu1
+  have hmd : 1 ≤ v.day ∧ v.day ≤ monthDays (proxyLeap v.year) v.month := by
+    rw [proxyLeap_eq v.year hy, monthDays_eq _ _ hm1 hm12]; exact ⟨hd1, hd2⟩
+  rw [mkUs_ok v.year v.month v.day v.us v.tz hy hyb ⟨hm1, hm12⟩ hmd ⟨hu0, by simpa [Cal.US, Timeline.US] using hu1⟩]
+
+/-- test (literals): '-0820-01-01T12:30:15.5+05:30' and the XSD 1.1 year 0000 -/
+example : dateTimeOfLex false "-0820-01-01T12:30:15.5+05:30".toList = .ok ⟨-820, 1, 1, 45015500000, some 330⟩ ∧
+    fmtDateTime false ⟨-820, 1, 1, 45015500000, some 330⟩ = "-0820-01-01T12:30:15.5+05:30".toList ∧
+    dateOfLex true "0000-02-29Z".toList = .ok ⟨-1, 2, 29, 0, some 0⟩ ∧ dateOfLex false "0000-02-29Z".toList = .error .value ∧
+    dateOfLex false "012345-01-01".toList = .error .value ∧ timeOfLex "24:00:00".toList = .ok ⟨2000, 1, 1, 0, none⟩ ∧
+    timeOfLex "24:00:00.000".toList = .ok ⟨2000, 1, 1, 0, none⟩ ∧ timeOfLex "24:00:00.0000001".toList = .error .value := by decide
 
 /-! ### xs:time -/
 
